@@ -31,7 +31,34 @@ struct FakeNode {
     listening: Arc<AtomicBool>,
     stop: Arc<AtomicBool>,
     listener: Arc<Mutex<Option<TcpListener>>>,
+    /// while "refused": a socket bound to the port but not listening, so that connects are refused AND nobody else
+    /// (another shard's node, an ephemeral source port) can take the port in the meantime
+    holder: Arc<Mutex<Option<PortHolder>>>,
 }
+
+#[repr(C)]
+struct SockAddrIn { family: u16, port_be: u16, addr_be: u32, zero: [u8; 8] }
+unsafe extern "C" {
+    fn socket(domain: i32, ty: i32, proto: i32) -> i32;
+    fn bind(fd: i32, addr: *const SockAddrIn, len: u32) -> i32;
+    fn close(fd: i32) -> i32;
+    fn setsockopt(fd: i32, level: i32, name: i32, val: *const core::ffi::c_void, len: u32) -> i32;
+}
+struct PortHolder(i32);
+impl PortHolder {
+    fn hold(port: u16) -> Option<PortHolder> {
+        unsafe {
+            let fd = socket(2, 1, 0); // AF_INET, SOCK_STREAM
+            if fd < 0 { return None; }
+            let one: i32 = 1;
+            setsockopt(fd, 1, 2, &one as *const i32 as *const core::ffi::c_void, 4); // SOL_SOCKET, SO_REUSEADDR
+            let a = SockAddrIn { family: 2, port_be: port.to_be(), addr_be: u32::from_ne_bytes([127, 0, 0, 1]), zero: [0; 8] };
+            if bind(fd, &a, 16) != 0 { close(fd); return None; }
+            Some(PortHolder(fd))
+        }
+    }
+}
+impl Drop for PortHolder { fn drop(&mut self) { unsafe { close(self.0); } } }
 
 fn read_frame(s: &mut TcpStream) -> Option<(u64, Vec<u8>)> {
     let mut h = [0u8; 48];
@@ -57,6 +84,7 @@ impl FakeNode {
             listening: Arc::new(AtomicBool::new(true)),
             stop: Arc::new(AtomicBool::new(false)),
             listener: Arc::new(Mutex::new(Some(l))),
+            holder: Arc::new(Mutex::new(None)),
         });
         let n = node.clone();
         std::thread::spawn(move || {
@@ -120,7 +148,16 @@ impl FakeNode {
     fn arm(&self, outcome: &str) {
         if outcome == "refused" {
             // nothing listens and every existing connection is gone
-            *self.listener.lock().unwrap() = None;
+            if self.listening.load(Ordering::SeqCst) {
+                let mut h = self.holder.lock().unwrap();
+                *self.listener.lock().unwrap() = None;
+                for _ in 0..200 {
+                    *h = PortHolder::hold(self.port);
+                    if h.is_some() { break; }
+                    std::thread::sleep(Duration::from_millis(2));
+                }
+                assert!(h.is_some(), "fake node could not keep hold of its port while refusing");
+            }
             for c in self.conns.lock().unwrap().drain(..) {
                 let _ = c.shutdown(Shutdown::Both);
             }
@@ -128,6 +165,7 @@ impl FakeNode {
         } else {
             if !self.listening.load(Ordering::SeqCst) {
                 // come back on the same port
+                *self.holder.lock().unwrap() = None;
                 for _ in 0..200 {
                     if let Ok(l) = TcpListener::bind(("127.0.0.1", self.port)) {
                         l.set_nonblocking(true).unwrap();
@@ -145,6 +183,7 @@ impl FakeNode {
     fn shutdown(&self) {
         self.stop.store(true, Ordering::SeqCst);
         *self.listener.lock().unwrap() = None;
+        *self.holder.lock().unwrap() = None;
         for c in self.conns.lock().unwrap().drain(..) {
             let _ = c.shutdown(Shutdown::Both);
         }
